@@ -116,9 +116,14 @@ Fixpoint unpack_fields (fuel : nat) (S : mspec) (bm : bytes) (i : Z) (src : byte
       else unpack_fields f S bm (i + 1) src off present fields
   end.
 
+(* unpack first unsets every data element that was set: the field object is re-created (unsetField) *)
+Definition reset_fields (S : mspec) (present : list Z) (fields : list (Z * fstate)) : list (Z * fstate) :=
+  map (fun ist => if zmem (fst ist) present then match zlookup (fst ist) (ms_fields S) with Some s => (fst ist, fresh s) | None => ist end else ist) fields.
+
 (* Unpack: state afterwards (also on failure) and the result: bytes consumed *)
 Definition m_unpack (S : mspec) (m0 : mstate) (src : bytes) : mstate * ures Z :=
-  (* m.fieldsMap = {} ; m.bitmap().Reset() *)
+  (* unset what was set ; m.fieldsMap = {} ; m.bitmap().Reset() *)
+  let m0 := with_fields m0 (reset_fields S (m_present m0) (m_fields m0)) in
   let m1 := m_bitmap S (with_present m0 []) in
   let m1 := with_bm m1 (bm_new (ms_bm S)) in
   match unpack_f (FPrim (ms_mti S)) (m_mti m1) src with
